@@ -12,7 +12,9 @@ RULE = ('declaration chains = nested suites of depth <=D around one test, '
         'every node carrying layer in {none, L1, L2, L1 given as a dotted-name '
         'string, a layer whose name the unit-layer regex also matches} and '
         'level in {none,-1,0,1,2,3}, the test declaring through the class or '
-        'the instance; ALL chains of a block are put into one world and the '
+        'the instance; plus sibling pairs: one suite holding two tests directly '
+        '(second one optionally inside an undeclaring sub-suite), every '
+        'declaration on the suite and on both tests; ALL chains of a block are put into one world and the '
         'real discovery+filter pipeline is run with --list-tests for every '
         'option vector (level switches x unit/layer switches); the listed '
         '(test -> layer) map must equal the reference (nearest declaration '
@@ -22,7 +24,7 @@ ASSUMPTIONS = [
     '--list-tests shows exactly what a run would select (that agreement is C03\'s business)',
 ]
 BOUND = {
-    'quick': 'depth <=2 (47 + 1128 + 27072 chains) x 27 option vectors',
+    'quick': 'depth <=2 (47 + 1128 + 27072 chains) x 27 option vectors; all 2x30x47x47 sibling pairs x 8 option vectors',
     'thorough': 'depth <=2 x all 13x10 option vectors; depth 3 (649728 chains) x 27 vectors',
 }
 CHUNK = 1
@@ -49,6 +51,10 @@ MIXED = [['--all', '-f'], ['--only-level', '2', '-u'], ['--at-level', '2', '--la
          ['--at-level', '0', '-u', '-f']]
 
 
+SIB_VECTORS = [[], ['--all'], ['--at-level', '2'], ['--only-level', '2'], ['-u'], ['-f'],
+               ['--all', '--layer', 'L2'], ['--at-level=-1', '-f']]
+
+
 def node_opts():
     return [(l, v) for l in LAYERS for v in LEVELS]
 
@@ -64,12 +70,25 @@ def leaf_opts():
 
 
 def chains(depth):
+    if depth == 's':
+        # siblings: one suite holding two tests directly (the second one
+        # optionally wrapped in a suite that declares nothing); what the first
+        # declares must not leak to the second
+        for outer in node_opts():
+            for la in leaf_opts():
+                for lb in leaf_opts():
+                    for shape in ('tt', 'ts'):
+                        yield ('sib', outer, la, lb, shape)
+        return
     for outer in itertools.product(node_opts(), repeat=depth):
         for leaf in leaf_opts():
             yield outer, leaf
 
 
 def nblocks(depth):
+    if depth == 's':
+        n = len(node_opts()) * len(leaf_opts()) ** 2 * 2
+        return (n + BLOCK - 1) // BLOCK
     n = (len(node_opts()) ** depth) * len(leaf_opts())
     return (n + BLOCK - 1) // BLOCK
 
@@ -81,9 +100,9 @@ def vectors(tier, depth):
 
 
 def cases(tier, seed):
-    depths = [0, 1, 2] if tier == 'quick' else [0, 1, 2, 3]
+    depths = [0, 1, 2, 's'] if tier == 'quick' else [0, 1, 2, 's', 3]
     for d in depths:
-        vs = vectors(tier, d)
+        vs = vectors(tier, d) if d != 's' else SIB_VECTORS
         for b in range(nblocks(d)):
             for vi in worlds.rot(range(len(vs)), seed):
                 yield [d, b, vs[vi]]
@@ -98,8 +117,7 @@ def build_block(depth, b):
     tests = []
     tree = []
     info = {}
-    for i, (outer, leaf) in enumerate(it):
-        tid = 'k%d' % i
+    def mk_test(tid, leaf):
         l, v, where = leaf
         t = {'n': tid, 's': 'pass'}
         lay = None if l is None else ('L1' if l == 'sL1' else (UXNAME if l == 'UX' else l))
@@ -112,7 +130,39 @@ def build_block(depth, b):
                 t['lv'] = v
         else:
             t['li'] = {'l': lay, 'lv': v}
-        tests.append(t)
+        return t
+
+    def ref(tid, decl):
+        rl = next((x[0] for x in decl if x[0] is not None), None)
+        rv = next((x[1] for x in decl if x[1] is not None), 1)
+        info[tid] = (FULL[rl], rv,
+                     sum(1 for x in decl if x[0] is not None) >= 2 or
+                     sum(1 for x in decl if x[1] is not None) >= 2)
+    for i, item in enumerate(it):
+        if item[0] == 'sib':
+            _, (ol, ov), la, lb, shape = item
+            ta, tb = 'k%da' % i, 'k%db' % i
+            tests.append(mk_test(ta, la))
+            tests.append(mk_test(tb, lb))
+            second = {'t': tb} if shape == 'tt' else {'c': [{'t': tb}]}
+            n2 = {'c': [{'t': ta}, second]}
+            if ol is not None:
+                n2['l'] = 'L1' if ol == 'sL1' else (UXNAME if ol == 'UX' else ol)
+                if ol == 'sL1':
+                    n2['lstr'] = True
+            if ov is not None:
+                n2['lv'] = ov
+            tree.append(n2)
+            ref(ta, [(la[0], la[1]), (ol, ov)])
+            ref(tb, [(lb[0], lb[1]), (ol, ov)])
+            # a sibling pair is non-trivial when the first declares something
+            # the second does not
+            info[tb] = info[tb][:2] + ((la[0] is not None and lb[0] is None) or (la[1] is not None and lb[1] is None),)
+            continue
+        outer, leaf = item
+        tid = 'k%d' % i
+        l, v, where = leaf
+        tests.append(mk_test(tid, leaf))
         node = {'t': tid}
         for (ol, ov) in reversed(outer):
             n2 = {'c': [node]}
@@ -192,6 +242,7 @@ def expected(info, argv):
 
 LIST_RE = re.compile(r'^Listing (\S+) tests:$')
 TEST_RE = re.compile(r'^  test_(\w+) \(')
+TID_RE = re.compile(r'^k(\d+)')
 
 
 def run_case(case):
@@ -225,7 +276,8 @@ def run_case(case):
             n += 1
             if n > 6:
                 break
-            ch = list(itertools.islice(chains(depth), b * BLOCK + int(tid[1:]), b * BLOCK + int(tid[1:]) + 1))[0]
+            k = int(TID_RE.match(tid).group(1))
+            ch = list(itertools.islice(chains(depth), b * BLOCK + k, b * BLOCK + k + 1))[0]
             if tid not in got:
                 clause = 'eligible_test_missing'
             elif tid not in want:
